@@ -142,6 +142,25 @@ theorem demux_mux_id (c : MCfg) (aud : Nat → Bytes) (conv : Bytes → Option B
       out.map pay = ((f0 :: rest).flatMap DlFrame.all).map payI :=
   Hevc.demux_mux_id c aud conv f0 rest hna heos hd hcs hdrop h0 hl hwf
 
+/-- **mux(demux(s)) = s with AUDs regenerated**: the same for a source in canonical form — every access unit led by
+the very AUD the tool regenerates for it (`DlFrame.CanonAud`) — without --no-add-aud. -/
+theorem demux_mux_id_canonical (c : MCfg) (aud : Nat → Bytes) (conv : Bytes → Option Bytes) (f0 : DlFrame) (rest : List DlFrame)
+    (hna : c.noAddAud = false) (heos : c.eosBeforeEl = false) (hd : c.discard = false) (hcs : c.convSet = false)
+    (hdrop : c.drop = false) (h0 : f0.au = 0) (hl : LabelsOk f0.au rest) (hwf : ∀ f ∈ f0 :: rest, f.Wf)
+    (hca : ∀ f ∈ f0 :: rest, f.CanonAud aud) :
+    ∃ out, mux c aud conv (((f0 :: rest).flatMap DlFrame.all).filter isBl)
+        ((((f0 :: rest).flatMap DlFrame.all).filter isEl).map unwrapItem) = some (out, false) ∧
+      out.map pay = ((f0 :: rest).flatMap DlFrame.all).map payI :=
+  Hevc.demux_mux_id_canonical c aud conv f0 rest hna heos hd hcs hdrop h0 hl hwf hca
+
+/-- … **byte-identical**: with the start-code preset `four` (the default) every NAL mux writes is behind a 4-byte
+start code, so for a canonical source written with 4-byte start codes (and no trailing zero bytes) the muxed file
+equals the source byte for byte -/
+theorem mux_start_codes_four (c : MCfg) (aud : Nat → Bytes) (conv : Bytes → Option Bytes) (bl el : List Item)
+    (out : List Out) (e : Bool) (h : c.annexb = false) (hm : mux c aud conv bl el = some (out, e)) :
+    ∀ o ∈ out, o.sc = 4 :=
+  mux_four c aud conv bl el out e h hm
+
 /-! ## non-vacuity: two frames, the first closed by EOS -/
 
 def exBl : List Item :=
@@ -185,5 +204,14 @@ def exDl : List DlFrame :=
 example : (mux { noAddAud := true } exAud (fun _ => none) ((exDl.flatMap DlFrame.all).filter isBl)
     (((exDl.flatMap DlFrame.all).filter isEl).map unwrapItem)).map (fun r => (r.1.map pay, r.2)) =
     some ((exDl.flatMap DlFrame.all).map payI, false) := by decide
+
+/-- a canonical source (AUD the tool regenerates, first in every access unit) for `demux_mux_id_canonical` -/
+def exDlCanon : List DlFrame :=
+  [⟨0, [⟨35, [0x46, 1, 0x10], 0⟩, ⟨19, [0x26, 1, 0xAA], 0⟩], [⟨63, [0x7E, 1, 0x26, 1, 0xAB], 0⟩, ⟨62, [0x7C, 1, 0x19, 0xA0], 0⟩], [⟨36, [0x48, 1], 0⟩]⟩,
+   ⟨1, [⟨35, [0x46, 1, 0x30], 1⟩, ⟨1, [0x02, 1, 0xBB], 1⟩], [⟨62, [0x7C, 1, 0x19, 0xA1], 1⟩], []⟩]
+
+example : (mux {} exAud (fun _ => none) ((exDlCanon.flatMap DlFrame.all).filter isBl)
+    (((exDlCanon.flatMap DlFrame.all).filter isEl).map unwrapItem)).map (fun r => (r.1.map pay, r.1.map (·.sc), r.2)) =
+    some ((exDlCanon.flatMap DlFrame.all).map payI, [4, 4, 4, 4, 4, 4, 4, 4], false) := by decide
 
 end Dovi.C06
